@@ -22,7 +22,7 @@ RULE = ('(a) reachable removal-enabled states of both classes (histories of 1-10
 ASSUMPTIONS = ['e > t', 'logs are chronological and well formed (each \'-\' preceded by a \'+\' of the same pair, \'-\' later than that \'+\')',
                'node ids contain no delimiter, comment marker or whitespace; ASCII-only ids when encoding=ascii']
 TECHNIQUE = 'round-trip PBT (write/read) and model replay of generated well-formed event logs'
-BUDGET = {'quick': {'cases': 10000, 'seconds': 45}, 'thorough': {'cases': 120000, 'seconds': 540}}
+BUDGET = {'quick': {'cases': 10000, 'seconds': 45}, 'thorough': {'cases': 300000, 'seconds': 540}}
 KINDS = ['add', 'add', 'add', 'add', 'add', 'add_from', 'path', 'cycle', 'recip']
 SHRINK_KEYS = ['ops', 'log']
 TRIG = 'two_instant_run_from_two_points'
